@@ -290,6 +290,10 @@ class Run:
                 if e == "dpr":
                     self.requests.append((282, hbh, e2e, self.generation))
                     det = dict(next="Closed", out={(282, False): 1})
+                elif e == "dpr-busy":
+                    # a DPR with another Disconnect-Cause is still a DPR from the configured peer: "a received DPR ... closes the
+                    # connection" (whether it is answered is left open: the library only answers cause REBOOTING)
+                    det = dict(next="Closed", out={})
                 else:
                     nxt = {"Open", "Closed"}
             elif poss0 == {"WaitICEA"}:
